@@ -39,7 +39,9 @@ def update_unpinned_versions(package_dict):
         if package_dict[package] != UNPINNED_VERSION:
             continue
 
-        package_dict[package] = get_installed_version(package)
+        # (the distribution name, without an [extras] suffix)
+        dist_name = package.split("[", 1)[0].strip() if package.endswith("]") else package
+        package_dict[package] = get_installed_version(dist_name)
         if not package_dict[package]:
             _LOGGER.error("%s wasn't able to be installed", package)
             requirements_to_pop.append(package)
